@@ -47,7 +47,8 @@ def jobs(tier, seed):
         for fl in ("threaded", "asyncio"):
             scripts = list(fixed) + [[rng.choice(alpha) for _ in range(rng.randint(2, 5))] for _ in range(1 if q else 12)]
             for k, sc in enumerate(scripts):
-                out.append({"kind": "real", "gw": gw, "flavour": fl, "script": sc, "rt": [0.4, 0.3, 0.6][(k + seed) % 3], "hold": 0.0})
+                out.append({"kind": "real", "gw": gw, "flavour": fl, "script": sc, "rt": [0.4, 0.3, 0.6][(k + seed) % 3], "hold": 0.0,
+                            "neighbour": fl == "threaded" and k % 2 == 1})
             if gw == "tcp":
                 out.append({"kind": "real", "gw": gw, "flavour": fl, "script": ["traffic"], "rt": 0.5, "hold": 3.0})   # answering link held for 6 x rt
     # real churn: the device keeps killing the link while commands are being written; callbacks must stay exact
@@ -62,13 +63,14 @@ def jobs(tier, seed):
     return out
 
 
-def run_life(gw, fl, seed, script, rt, answer=0.1, hold=0.0, stop_on_loss=False):
+def run_life(gw, fl, seed, script, rt, answer=0.1, hold=0.0, stop_on_loss=False, made_raises=False):
     from .. import lifetimes as L
 
     if fl == "threaded":
         return L.run_threaded(gw, seed, script, rt=rt, answer=answer, hold=hold)
-    ev, meta = L.run_async(gw, seed, script, rt=rt, answer=answer, hold=hold, stop_on_loss=stop_on_loss)
+    ev, meta = L.run_async(gw, seed, script, rt=rt, answer=answer, hold=hold, stop_on_loss=stop_on_loss, made_raises=made_raises)
     meta["stop_on_loss"] = stop_on_loss
+    meta["made_raises"] = made_raises
     return ev, meta
 
 
@@ -97,10 +99,33 @@ def judge(res, ev, meta, extra=()):
         res.count("lifetimes_with_loss_and_reconnect")
         res.count(f"loss_and_reconnect[{meta['kind']}/{meta['flavour']}]")
     case = {"gw": meta["kind"], "flavour": meta["flavour"], "script": meta["script"], "rt": meta["rt"], "seed": meta["seed"],
-            "answer": meta.get("answer"), "hold": meta.get("hold", 0.0), "stop_on_loss": meta.get("stop_on_loss", False)}
+            "answer": meta.get("answer"), "hold": meta.get("hold", 0.0), "stop_on_loss": meta.get("stop_on_loss", False), "made_raises": meta.get("made_raises", False)}
     for sig, what in V:
         res.violation(sig, what + f"  [script {meta['script']} rt={meta['rt']} seed={meta['seed']}]", dict(case, log=[list(map(str, e)) for e in ev if e[1] != "SLEEP"][:80]))
     return V
+
+
+def rerun_fresh(job):
+    """The signatures check_real finds for one more run of the job's lifetime in a fresh interpreter (None: could not run)."""
+    import json
+    import subprocess
+    import sys
+
+    code = ("import json, os, sys\n"
+            "from vf import core\ncore.use_repo()\n"
+            "from vf import realdev as R\n"
+            f"job = json.loads({json.dumps(json.dumps(job))})\n"
+            "ev, meta = R.run_real(job['gw'], job['flavour'], job['script'], rt=job['rt'], hold=job.get('hold', 0.0), neighbour=job.get('neighbour', False))\n"
+            "sys.stdout.write('SIGS ' + json.dumps([s for s, _ in R.check_real(ev, meta)]) + '\\n')\n"
+            "sys.stdout.flush()\nos._exit(0)\n")
+    try:
+        p = subprocess.run([sys.executable, "-c", code], capture_output=True, text=True, timeout=240)
+    except subprocess.TimeoutExpired:
+        return None
+    for line in p.stdout.splitlines():
+        if line.startswith("SIGS "):
+            return json.loads(line[5:])
+    return None
 
 
 def run_real_job(job, res, reproduce=2):
@@ -112,7 +137,7 @@ def run_real_job(job, res, reproduce=2):
 
     def once():
         try:
-            ev, meta = R.run_real(job["gw"], job["flavour"], job["script"], rt=job["rt"], hold=job.get("hold", 0.0))
+            ev, meta = R.run_real(job["gw"], job["flavour"], job["script"], rt=job["rt"], hold=job.get("hold", 0.0), neighbour=job.get("neighbour", False))
         except (OSError, RuntimeError) as exc:
             if isinstance(exc, OSError) and exc.errno in (1, 13, 97, 99, 2, 19):
                 return None, None, repr(exc)
@@ -128,6 +153,8 @@ def run_real_job(job, res, reproduce=2):
     res.evals += 1
     res.count("real_lifetimes")
     res.count(f"real_lifetimes[{tag}]")
+    if meta.get("neighbour"):
+        res.count("real_lifetimes_beside_a_gateway_that_keeps_dialling")
     res.count("real_events", len(ev))
     res.count("real_made_callbacks", sum(1 for e in ev if e[1] == "MADE"))
     res.count("real_lost_callbacks", sum(1 for e in ev if e[1] == "LOST"))
@@ -141,11 +168,13 @@ def run_real_job(job, res, reproduce=2):
     if V and reproduce:
         keep = {s for s, _ in V}
         for _ in range(reproduce):
-            ev2, meta2, un = once()
-            if un:
+            # each re-run in a process of its own: what an earlier lifetime left behind in this one (threads, module
+            # state) must neither produce nor mask the anomaly
+            sigs = rerun_fresh(job)
+            if sigs is None:
                 keep = set()
                 break
-            keep &= {s for s, _ in R.check_real(ev2, meta2)}
+            keep &= set(sigs)
             if not keep:
                 break
         dropped = [s for s, _ in V if s not in keep]
@@ -153,7 +182,7 @@ def run_real_job(job, res, reproduce=2):
             res.count("real_anomalies_not_reproduced", len(dropped))
             res.notes.append(f"real-device anomaly not reproduced on re-run (not judged): {dropped[:3]} script={job['script']} {tag}")
         V = [(s, w) for s, w in V if s in keep]
-    case = {"real": True, "gw": job["gw"], "flavour": job["flavour"], "script": job["script"], "rt": job["rt"], "hold": job.get("hold", 0.0)}
+    case = {"real": True, "gw": job["gw"], "flavour": job["flavour"], "script": job["script"], "rt": job["rt"], "hold": job.get("hold", 0.0), "neighbour": job.get("neighbour", False)}
 
     def show(e):
         return [str(x)[:60] for x in e]
@@ -229,7 +258,11 @@ def run(job):
                 seed = job["seed"] * 1000 + k % 7
                 # asyncio: in every fourth lifetime the application stops the gateway from its loss callback
                 sol = job["flavour"] == "asyncio" and k % 4 == 3
-                ev, meta = run_life(job["gw"], job["flavour"], seed, script, rt, stop_on_loss=sol)
+                # ... and in every fourth its connection-made callback raises on the first connection
+                mr = job["flavour"] == "asyncio" and k % 4 == 1
+                ev, meta = run_life(job["gw"], job["flavour"], seed, script, rt, stop_on_loss=sol, made_raises=mr)
+                if mr and any(e[1] == "MADE" for e in ev):
+                    res.count("lifetimes_whose_made_callback_raised")
                 if sol and any(e[1] == "LOST" and e[3] is not None for e in ev):
                     res.count("lifetimes_stopped_from_the_loss_callback")
                 judge(res, ev, meta)
@@ -269,6 +302,18 @@ def run(job):
                 judge(res, ev, meta, L.check_watchdog(ev, meta, "silent"))
                 res.count("watchdog_silent_links")
                 res.nontrivial(("watchdog", fl, rt, "silent-later"))
+                if fl == "asyncio":
+                    # the same with an application whose connection-made callback raises on the first connection
+                    ev, meta = run_life("tcp", fl, job["seed"], ["ok"], rt, answer=None, hold=5 * rt, made_raises=True)
+                    meta["hold"] = 5 * rt
+                    judge(res, ev, meta, L.check_watchdog(ev, meta, "silent"))
+                    res.count("watchdog_silent_links")
+                    res.count("watchdog_links_whose_made_callback_raised")
+                    ev, meta = run_life("tcp", fl, job["seed"], ["ok"], rt, answer=0.5 * rt, hold=7 * rt, made_raises=True)
+                    meta["hold"] = 7 * rt
+                    judge(res, ev, meta, L.check_watchdog(ev, meta, "answering"))
+                    res.count("watchdog_answering_links")
+                    res.count("watchdog_links_whose_made_callback_raised")
             res.sample({"kind": "watchdog", "flavour": fl, "rts": RTS, "latencies": [0.0, 0.5, 0.9]})
     finally:
         faulthandler.cancel_dump_traceback_later()
@@ -283,10 +328,10 @@ def replay(case):
         run_real_churn({"gw": case["gw"], "flavour": case["flavour"], "seed": case["seed"], "pace": case["pace"], "churn": case["churn"]}, res)
         return res
     if case.get("real"):
-        run_real_job({"gw": case["gw"], "flavour": case["flavour"], "script": case["script"], "rt": case["rt"], "hold": case.get("hold", 0.0)}, res)
+        run_real_job({"gw": case["gw"], "flavour": case["flavour"], "script": case["script"], "rt": case["rt"], "hold": case.get("hold", 0.0), "neighbour": case.get("neighbour", False)}, res)
         return res
     ev, meta = run_life(case["gw"], case["flavour"], case["seed"], case["script"], case["rt"], answer=case.get("answer", 0.1), hold=case.get("hold", 0.0),
-                        stop_on_loss=case.get("stop_on_loss", False))
+                        stop_on_loss=case.get("stop_on_loss", False), made_raises=case.get("made_raises", False))
     extra = []
     if case.get("hold"):
         extra = L.check_watchdog(ev, meta, "answering" if case.get("answer") is not None and "silence" not in case["script"] else "silent")
@@ -313,7 +358,10 @@ def finish(agg, tier):
                 "device away for 3.3 x rt, silent link, user disconnect} ended by stop(); oracle: callbacks exactly once per connection, "
                 "connect attempt + loss callback after every unrequested loss, >= 2 retries no closer than rt while the device is away, "
                 "no reconnect after a user disconnect, nothing (callbacks, connects, bytes at the device) after stop(), answered links "
-                "never dropped, silent links dropped no earlier than 2 x rt; an anomaly counts only if it reproduces on two re-runs. Real "
+                "never dropped, silent links dropped no earlier than 2 x rt, a started gateway dials at all; every other threaded lifetime runs beside a second "
+                "threaded gateway of the other kind whose device is not there and which keeps dialling; an anomaly counts only if it reproduces on two "
+                "re-runs, each in an interpreter of its own. In every fourth asyncio lifetime (simulated) and in extra watchdog runs the application's "
+                "connection-made callback raises on the first connection: supervision of the link must not depend on it. Real "
                 "churn: the same four gateways while three threads queue commands and the device kills the link every 3-600 ms for "
                 "2-4 s, then a quiet phase, a final batch and stop(): made == lost callbacks, (TCP) accepted == made, commands flow "
                 "again once the faults stop, nothing after stop().",
@@ -324,7 +372,10 @@ def finish(agg, tier):
                   + [(f"loss_and_reconnect[{k}/{fl}]", c.get(f"loss_and_reconnect[{k}/{fl}]", 0), 40) for (k, fl) in ALPHA]
                   + ([] if c.get("real_device_unavailable") else
                      [(f"real_lifetimes[{k}/{fl}]", c.get(f"real_lifetimes[{k}/{fl}]", 0), 5) for (k, fl) in ALPHA]
-                     + [(f"real_churn_runs[{k}/{fl}]", c.get(f"real_churn_runs[{k}/{fl}]", 0), 1) for (k, fl) in ALPHA]),
+                     + [(f"real_churn_runs[{k}/{fl}]", c.get(f"real_churn_runs[{k}/{fl}]", 0), 1) for (k, fl) in ALPHA]
+                     + [("real_lifetimes_beside_a_gateway_that_keeps_dialling", c.get("real_lifetimes_beside_a_gateway_that_keeps_dialling", 0), 4)])
+                  + [("lifetimes_whose_made_callback_raised", c.get("lifetimes_whose_made_callback_raised", 0), 40),
+                     ("watchdog_links_whose_made_callback_raised", c.get("watchdog_links_whose_made_callback_raised", 0), 6)],
         "assumptions": ["real-device sample: deadlines are generous (6 x rt + 4 s) and anomalies must reproduce 3/3; it is skipped (noted) where ptys / loopback are unavailable",
                         "fakes mimic the failure behaviour of serial ports, sockets and asyncio transports; 'about twice' = [2, 3] x rt",
                         "on the threaded TCP gateway a peer's orderly close is only observable through a failing write or the "
